@@ -152,3 +152,4 @@ def run(ctx):
         m.run(ctx)
     c04.r04_1(ctx)
     c04.r04_3(ctx)
+    c04.r04_5(ctx)
